@@ -117,13 +117,20 @@ def generate(targets, report):
             globs = source.module_namespace(t.mod)
             if t.body_slice is not None:
                 import ast as _ast, hashlib as _hl, copy as _copy
-                a, b_ = t.body_slice(fn.body)
+                r_ = t.body_slice(fn.body)
                 full = fn.body
                 fn = _copy.copy(fn)
-                # helper functions defined earlier in the same function stay visible to the phase (a def has no other effect)
-                helpers = [x for x in full[:a] if isinstance(x, _ast.FunctionDef)]
-                fn.body = helpers + full[a:b_]
-                if not full[a:b_]:
+                if isinstance(r_, list):
+                    # a block of statements nested inside the function (e.g. part of a loop body), selected structurally by the contract
+                    helpers = [x for x in full if isinstance(x, _ast.FunctionDef)]
+                    part = r_
+                else:
+                    a, b_ = r_
+                    # helper functions defined earlier in the same function stay visible to the phase (a def has no other effect)
+                    helpers = [x for x in full[:a] if isinstance(x, _ast.FunctionDef)]
+                    part = full[a:b_]
+                fn.body = helpers + part
+                if not part:
                     raise ContractError('phase not found')
                 sha = _hl.sha256('\n'.join(_ast.unparse(x) for x in fn.body).encode()).hexdigest()
         except ContractError as e:
